@@ -34,7 +34,18 @@ pub fn whole_strings() -> Vec<String> {
         "\u{feff}a", "a\u{85}b", "a\u{2028}b", "a\u{2029}b", "a\u{0}b", "\u{7f}", "\u{1}", "\u{1b}[0m", "\u{e9}", "\u{20ac}", "\u{1f600}", "e\u{301}", "\u{a0}", "2001-12-14", "12:30:45", "1:2", "<<", "=",
         "a,b", "a, b", "[a, b]", "key: [1, 2]", "a: - b", "very long string with spaces and: colons # and hashes that goes on and on and on and on and on and on and on and on and on and on and on",
     ];
-    v.iter().map(|s| s.to_string()).collect()
+    let mut out: Vec<String> = v.iter().map(|s| s.to_string()).collect();
+    // long strings of multi-byte characters at shifted byte offsets (buffered / chunked readers), multi-line text
+    // with trailing and CRLF line breaks
+    for k in 0..3 {
+        out.push(format!("{}{}", "a".repeat(k), "\u{20ac}".repeat(6000)));
+    }
+    out.push("\u{1f600}".repeat(5000));
+    out.push(format!("{}\u{e9}", "x".repeat(8191)));
+    out.push("line one\nline two\n".to_string());
+    out.push("crlf one\r\ncrlf two".to_string());
+    out.push("ends with newline\n".to_string());
+    out
 }
 
 fn date() -> GdsDateTime {
@@ -216,10 +227,19 @@ pub fn full_lef() -> LefLibrary {
     m.pins.push(pin);
     m.obs.push(lg);
     lib.macros.push(m);
+    lib.extensions.push(LefExtension { name: "\"tag\"".into(), data: "CREATOR x ; ".into() });
     lib
 }
-pub const LEF_STRING_SITES: usize = 8;
+pub const LEF_STRING_SITES: usize = 10;
 fn set_lef_string(lib: &mut LefLibrary, site: usize, s: &str) {
+    if site >= 8 {
+        if site == 8 {
+            lib.extensions[0].name = s.to_string();
+        } else {
+            lib.extensions[0].data = s.to_string();
+        }
+        return;
+    }
     let m = &mut lib.macros[0];
     match site {
         0 => m.name = s.to_string(),
@@ -605,10 +625,21 @@ impl Driver for C18 {
     }
 }
 
+/// key form of a string: hex of its bytes, or `w<index into whole_strings()>` for long ones
 fn hex(s: &str) -> String {
+    if s.len() > 64 {
+        if let Some(i) = whole_strings().iter().position(|w| w == s) {
+            return format!("w{i}");
+        }
+    }
     s.bytes().map(|b| format!("{b:02x}")).collect()
 }
 fn unhex(h: &str) -> String {
+    if let Some(i) = h.strip_prefix('w') {
+        if let Ok(i) = i.parse::<usize>() {
+            return whole_strings().get(i).cloned().unwrap_or_default();
+        }
+    }
     let b: Vec<u8> = (0..h.len() / 2).map(|i| u8::from_str_radix(&h[2 * i..2 * i + 2], 16).unwrap_or(b'?')).collect();
     String::from_utf8_lossy(&b).to_string()
 }
